@@ -29,6 +29,8 @@ claimed = {
              note="Shares are computed with real float64 arithmetic on concrete weights; int(10000*cutOff) is abstracted to real arithmetic with truncation."),
  "C17": dict(design="5/C17", text="De Bruijn sequence: orders 1..4 (quick) / 1..6 (thorough) executed by the engine and checked for length and every-word-exactly-once (closed computation). Barcodes: for symbolic banned sequences (length 2..3 over ATGC) and filters rejecting symbolic windows the solver decides on every path that each barcode is a substring of the requested length, barcodes share no n-word, no barcode contains a ban or the reverse complement of one, every filter accepts every barcode, and the call terminates within the step budget.",
              note="Filters are restricted to 'reject an arbitrary set of at most 1 (quick) / 2 (thorough) windows' (fully uninterpreted predicates explode as 2^windows). Orders 7..11 are outside the claim."),
+ "C19": dict(design="5/C19", text="In a real-arithmetic abstraction of the float code: for all A/C/G/T sequences (both cases) up to the stated length and symbolic concentrations the solver decides that dH and dS are the nearest-neighbour sums plus initiation / symmetry / terminal-AT / salt terms (parameter values taken from the package's own table), the Tm formula with f = 1 or 4, case independence, independence of dH from concentrations, strict monotonicity of Tm in each concentration inside the duplex regime, MeltingTemp = SantaLucia at the default conditions, Marmur-Doty, and strand symmetry of the parameter table.",
+             note="REAL-ARITHMETIC ABSTRACTION: every float64 operation is mapped to exact rational arithmetic and math.Log to an uninterpreted strictly monotone function; floating-point rounding is outside the claim (native replays compare with a 1e-9 relative tolerance)."),
 }
 
 na_reason = {}
